@@ -80,6 +80,13 @@ Proof.
   revert n m; induction l as [|y t IH]; intros [|n] [|m]; cbn; intros H; auto; try congruence.
 Qed.
 
+Lemma nth_opt_In {A} (l : list A) n x : nth_opt l n = Some x -> In x l.
+Proof.
+  revert n; induction l as [|y t IH]; intros [|n]; cbn; intros H; try discriminate.
+  - injection H as ->. left; reflexivity.
+  - right. eapply IH. exact H.
+Qed.
+
 Definition sumZ (l : list Z) : Z := fold_right Z.add 0%Z l.
 
 Lemma sumZ_app a b : sumZ (a ++ b) = (sumZ a + sumZ b)%Z.
